@@ -297,6 +297,7 @@ fn entry_dims(conc: &Conc, kind: &str) -> EntryDimensions {
         "ed_d2" => vec![vec!["d2"]],
         "ed_two" => vec![vec![], vec!["d2"]],
         "ed_empty" => vec![],
+        "ed_unit" => vec![vec![]],
         other => panic!("unknown entry dimension config {other}"),
     };
     let owned: Vec<Cow<'static, [Cow<'static, str>]>> = sets
